@@ -65,7 +65,7 @@ fn families(id: &str, tier: Tier) -> Vec<BFamily<'static>> {
       add("chord layout over {CAPSLOCK,J} interleaved with a tablet event", l_chord(), cfg(&[CAPSLOCK, J], if q { 4 } else { 5 }, 1, if q { 0 } else { 1 }, 0, 30));
     }
     "C11" => {
-      let (l, t, d) = if q { (4, 3, 1) } else { (5, 4, 1) };
+      let (l, t, d) = if q { (4, 3, 1) } else { (5, 3, 1) };
       add("repeat B->B Special{[LEFTCTRL,C],130,30}, A->A Disabled over {A,B,LEFTCTRL}", l_repeat(), cfg(&[A, B, LEFTCTRL], l, 0, d, t, 30));
       if !q { add("same layout, deviation bound 2", l_repeat(), cfg(&[A, B, LEFTCTRL], 4, 0, 2, 3, 30)); add("same layout over {B,LEFTCTRL}, up to 6 time-outs", l_repeat(), cfg(&[B, LEFTCTRL], 4, 0, 1, 6, 30)); }
       add("same layout with up to two tablet events", l_repeat(), cfg(&[B, LEFTCTRL], l, 2, if q { 0 } else { 1 }, if q { 2 } else { 3 }, 30));
